@@ -138,6 +138,19 @@ pub fn catalogue() -> Vec<Op> {
                 pset.insert(p.clone());
                 let _ = (p.to_string(), p.name(), ParametersStore::name_for_parameter(p, Some(&pstore)), ParametersStore::name_for_parameter(p, None), pstore.name(p), pstore.assigned_name(p).is_some());
             }
+            // a caller-supplied context whose stores hold UNNAMED entries for values the envelope contains
+            {
+                let mut kstore = KnownValuesStore::new([known_values::NOTE]);
+                kstore.insert(KnownValue::new(n));
+                kstore.insert(KnownValue::from(n + 1));
+                let mut fstore2 = FunctionsStore::new([functions::ADD]);
+                fstore2.insert(Function::new_known(n, None));
+                let mut pstore2 = ParametersStore::new([parameters::LHS]);
+                pstore2.insert(Parameter::new_known(n, None));
+                let ctx2 = FormatContext::new(false, None, Some(&kstore), Some(&fstore2), Some(&pstore2));
+                let probe = e.add_assertion(KnownValue::new(n), KnownValue::new(n + 1)).add_assertion(dcbor::CBOR::to_tagged_value(40000u64, n), Function::new_known(n, None)).add_assertion(Parameter::new_known(n, None), "v");
+                let _ = (probe.format_opt(Some(&ctx2)).len(), probe.tree_format_opt(false, Some(&ctx2)).len(), probe.hex_opt(true, Some(&ctx2)).len(), probe.format_opt(Some(&ctx2.clone().set_flat(true))).len(), kstore.assigned_name(&KnownValue::new(n)), kstore.name(KnownValue::new(n)), fstore2.name(&Function::new_known(n, None)), pstore2.name(&Parameter::new_known(n, None)));
+            }
             bc_envelope::with_format_context!(|c: &FormatContext| {
                 use dcbor::TagsStoreTrait;
                 let t = dcbor::Tag::with_value(n);
